@@ -476,7 +476,7 @@ func planKeyCollision(p *Plan) bool {
 		switch op.Kind {
 		case "connect":
 			slotID[op.Slot] = op.Pkt.ClientID
-		case "subscribe":
+		case "subscribe", "unsubscribe":
 			id := slotID[op.Slot]
 			for _, f := range op.Pkt.Filters {
 				k := id + ":" + f.Filter
@@ -975,7 +975,7 @@ func runC22(p *Profile, seed uint64, rf *ReplayFile) *RunOutcome {
 					// do two different (client, filter) pairs concatenate to the same "<client>:<filter>"?
 					keys, coll := map[string]string{}, false
 					for _, e := range evs {
-						if e.Op == "subscribed" {
+						if e.Op == "subscribed" || e.Op == "unsubscribed" {
 							k, pair := e.Client+":"+e.Filter, e.Client+"\x00"+e.Filter
 							if prev, ok := keys[k]; ok && prev != pair {
 								coll = true
